@@ -1,0 +1,12 @@
+//go:build verif
+
+package lsp
+
+// Exports for the verification harness (property C44): the unexported
+// position arithmetic of the language server.
+var (
+	LspPositionToIdx   = lspPositionToIdx
+	LspPositionFromIdx = lspPositionFromIdx
+	LspRangeFromRange  = lspRangeFromRange
+	WalkString         = walkString
+)
